@@ -180,26 +180,19 @@ End Moment.
 Lemma good_with_events es s : good (core_of s) -> good (core_of (with_events es s)).
 Proof. intros G. exact G. Qed.
 
-Lemma backlog_any_moment P gfh ops o k h : in_domain (ops ++ [o]) ->
+(* every moment state is well-formed, its committed chain is [committed_at],
+   and replaying the remaining events over it gives the committed chain after
+   the operation *)
+Lemma moment_main P gfh ops o k : in_domain (ops ++ [o]) ->
   let s := reach P gfh ops in let s' := step P s o in
   let evs := op_events s s' in
   (k <= length evs)%nat ->
   let m := moment_state s s' k in
   let cm := committed_at (committed_of s) (committed_of s') evs k in
-  committed_of m = cm /\ ftipVar m = zlen cm - 1 /\ 1 <= zlen cm /\
-  (0 <= h -> notifs_at_moment s s' k h =
-     if h =? 0 then Some ([], zlen cm - 1)
-     else if h <=? zlen cm - 1 then Some (moment_backlog cm h, zlen cm - 1) else None) /\
-  (0 < h <= zlen cm - 1 ->
-     replay (take (zn h + 1) cm) (map conn_of (moment_backlog cm h) ++ drop k evs) =
-       Some (committed_of s')).
+  committed_of m = cm /\ good (core_of m) /\ Z.of_nat (length (chain m)) <= 1000000 /\
+  replay (committed_of m) (drop k evs) = Some (committed_of s').
 Proof.
   intros Hd s s' evs Hk m cm.
-  assert (Hmain : committed_of m = cm /\ good (core_of m) /\ Z.of_nat (length (chain m)) <= 1000000 /\
-                  replay (committed_of m) (drop k evs) = Some (committed_of s')).
-  2:{ destruct Hmain as (Hcm & G & HL & HR).
-      pose proof (moment_generic m (drop k evs) (committed_of s') h G HL HR) as HG.
-      cbv zeta in HG. rewrite Hcm in HG. unfold notifs_at_moment. fold m. tauto. }
   destruct (evs !! k) as [e|] eqn:Hev.
   2:{ exact (moment_done P gfh ops o Hd k Hev). }
   destruct (dom_facts P gfh ops o Hd) as (HC & HC' & Hn & Hmono). fold s in HC. fold s' in HC'.
@@ -284,4 +277,286 @@ Proof.
     change (hashes (chain s')) with Ha.
     replace fa with (fb + k + (fa - (fb + k)))%nat at 2 by lia.
     apply replay_conns_held; unfold Ha; rewrite ?map_length; lia.
+Qed.
+
+Lemma backlog_any_moment P gfh ops o k h : in_domain (ops ++ [o]) ->
+  let s := reach P gfh ops in let s' := step P s o in
+  let evs := op_events s s' in
+  (k <= length evs)%nat ->
+  let m := moment_state s s' k in
+  let cm := committed_at (committed_of s) (committed_of s') evs k in
+  committed_of m = cm /\ ftipVar m = zlen cm - 1 /\ 1 <= zlen cm /\
+  (0 <= h -> notifs_at_moment s s' k h =
+     if h =? 0 then Some ([], zlen cm - 1)
+     else if h <=? zlen cm - 1 then Some (moment_backlog cm h, zlen cm - 1) else None) /\
+  (0 < h <= zlen cm - 1 ->
+     replay (take (zn h + 1) cm) (map conn_of (moment_backlog cm h) ++ drop k evs) =
+       Some (committed_of s')).
+Proof.
+  intros Hd s s' evs Hk m cm.
+  destruct (moment_main P gfh ops o k Hd Hk) as (Hcm & G & HL & HR). fold s s' evs m cm in Hcm, G, HL, HR.
+  pose proof (moment_generic m (drop k evs) (committed_of s') h G HL HR) as HG.
+  cbv zeta in HG. rewrite Hcm in HG. unfold notifs_at_moment. fold m. tauto.
+Qed.
+
+(* ================= moment_state vs the model's rollback stopped at each event ================= *)
+Definition pre_core (th : Z) (c : core) : core :=
+  {| k_chain := take (zn th) (k_chain c);
+     k_fchain := if th <=? zlen (k_fchain c) - 1 then take (zn th) (k_fchain c) else k_fchain c;
+     k_ftip := if th <=? zlen (k_fchain c) - 1 then th - 1 else k_ftip c;
+     k_events := k_events c |}.
+
+Fixpoint rbm_core (fuel : nat) (h : Z) (c : core) : list core :=
+  match fuel with
+  | O => []
+  | S f =>
+    let th := zlen (k_chain c) - 1 in
+    if th >? h then
+      match at_h (k_chain c) th, at_h (k_chain c) (th - 1) with
+      | Some cur, Some prev => pre_core th c :: rbm_core f h (pop_core th cur prev c)
+      | _, _ => []
+      end
+    else []
+  end.
+
+Lemma core_roll_back_moments f : forall h s,
+  map core_of (roll_back_moments f h s) = rbm_core f h (core_of s).
+Proof.
+  induction f as [|f IH]; intros h s; [reflexivity|].
+  cbn [roll_back_moments rbm_core]. unfold tip_height. cbn [core_of k_chain].
+  destruct (zlen (chain s) - 1 >? h); [|reflexivity].
+  destruct (at_h (chain s) (zlen (chain s) - 1)) as [cur|]; [|reflexivity].
+  destruct (at_h (chain s) (zlen (chain s) - 1 - 1)) as [prev|]; [|reflexivity].
+  cbn [map]. rewrite IH. f_equal.
+  - unfold pre_core, core_of. cbn [k_chain k_fchain k_ftip k_events].
+    destruct (zlen (chain s) - 1 <=? zlen (fchain s) - 1); reflexivity.
+  - f_equal. unfold pop_core, core_of. cbn [k_chain k_fchain k_ftip k_events].
+    destruct (zlen (chain s) - 1 <=? zlen (fchain s) - 1); reflexivity.
+Qed.
+
+(* closed form of the k-th moment of a rollback of [c] down to length [t] *)
+Definition mcore (c : core) (t k : nat) : core :=
+  let n := length (k_chain c) in
+  {| k_chain := take (n - S k) (k_chain c);
+     k_fchain := take (n - S k) (k_fchain c);
+     k_ftip := Z.of_nat (Nat.min (n - S k) (length (k_fchain c))) - 1;
+     k_events := k_events c ++ take k (discs_from (hashes (k_chain c)) t) |}.
+
+Lemma rbm_core_cf fuel : forall h c, good c -> Z.of_nat (length (k_chain c)) <= 1000000 ->
+  (length (k_chain c) <= S fuel)%nat ->
+  rbm_core fuel h c = map (mcore c (tgt h c)) (seq 0 (length (k_chain c) - tgt h c)).
+Proof.
+  induction fuel as [|f IH]; intros h c G HL Hf.
+  - destruct G as [[G1 G2] _]. unfold tgt. replace (length (k_chain c) - _)%nat with 0%nat by lia. reflexivity.
+  - cbn [rbm_core]. unfold zlen.
+    destruct (Z.of_nat (length (k_chain c)) - 1 >? h) eqn:Eth.
+    2:{ unfold tgt. replace (length (k_chain c) - _)%nat with 0%nat by lia. reflexivity. }
+    pose proof G as [[G1 G2] G3].
+    destruct c as [ch fc ft ev]. cbn [k_chain k_fchain k_ftip k_events] in *.
+    destruct ch as [|cur init _] using rev_ind; [cbn in G2; lia|].
+    rewrite app_length in *. cbn [length] in *.
+    replace (Z.of_nat (length init + 1) - 1) with (Z.of_nat (length init)) by lia.
+    rewrite at_h_nat by (rewrite ?app_length; cbn [length]; lia).
+    rewrite lookup_app_r by lia. rewrite Nat.sub_diag. cbn [lookup list_lookup].
+    destruct (decide (length init = 0)%nat) as [E0|E0].
+    { rewrite at_h_neg by lia. unfold tgt. cbn [k_chain]. rewrite app_length. cbn [length].
+      replace (length init + 1 - _)%nat with 0%nat by lia. reflexivity. }
+    replace (Z.of_nat (length init) - 1) with (Z.of_nat (length init - 1)) by lia.
+    rewrite at_h_nat by (rewrite ?app_length; cbn [length]; lia).
+    rewrite lookup_app_l by lia.
+    destruct (init !! (length init - 1)%nat) as [prev|] eqn:Hprev; [|apply lookup_ge_None in Hprev; lia].
+    set (t := Nat.min (length init + 1) (Z.to_nat (Z.max h 0) + 1)).
+    assert (Ht : (t <= length init)%nat) by (unfold t; lia).
+    unfold tgt. cbn [k_chain]. rewrite app_length. cbn [length]. fold t.
+    replace (length init + 1 - t)%nat with (S (length init - t)) by lia.
+    cbn [seq map]. f_equal.
+    + unfold pre_core, mcore. cbn [k_chain k_fchain k_ftip k_events]. unfold zlen.
+      rewrite app_length. cbn [length]. rewrite zn_nat by lia.
+      replace (length init + 1 - 1)%nat with (length init) by lia.
+      cbn [take]. rewrite app_nil_r. f_equal.
+      * destruct (Z.of_nat (length init) <=? Z.of_nat (length fc) - 1) eqn:Ef; [reflexivity|].
+        rewrite take_ge by lia. reflexivity.
+      * destruct (Z.of_nat (length init) <=? Z.of_nat (length fc) - 1) eqn:Ef; lia.
+    + rewrite <- seq_shift, map_map.
+      rewrite IH.
+      * (* the moments of the popped core are the later moments of c *)
+        unfold pop_core at 2 3. cbn [k_chain]. rewrite zn_nat by lia.
+        rewrite take_app_le by lia. rewrite (take_ge init) by lia.
+        assert (Ht' : tgt h (pop_core (Z.of_nat (length init)) cur prev
+                       {| k_chain := init ++ [cur]; k_fchain := fc; k_ftip := ft; k_events := ev |}) = t).
+        { unfold tgt, pop_core. cbn [k_chain]. rewrite zn_nat by lia.
+          rewrite take_app_le by lia. rewrite (take_ge init) by lia. unfold t. lia. }
+        rewrite Ht'. apply map_ext_in. intros k Hk. apply elem_of_list_In, elem_of_seq in Hk.
+        unfold mcore, pop_core. cbn [k_chain k_fchain k_ftip k_events]. unfold zlen.
+        rewrite zn_nat by lia. rewrite take_app_le by lia. rewrite (take_ge init) by lia.
+        rewrite app_length. cbn [length].
+        replace (length init + 1 - S (S k))%nat with (length init - S k)%nat by lia.
+        rewrite (take_app_le init [cur]) by lia.
+        rewrite hashes_app. change (hashes [cur]) with [hid cur].
+        rewrite discs_from_snoc by (rewrite hashes_length; lia).
+        rewrite hashes_length, hashes_lookup.
+        replace (Init.Nat.pred (length init)) with (length init - 1)%nat by lia.
+        rewrite Hprev. cbn [fmap option_fmap option_map default take].
+        rewrite <- app_assoc. cbn [app].
+        assert (Htg : forall fc' ft' ev',
+                  tgt h {| k_chain := init; k_fchain := fc'; k_ftip := ft'; k_events := ev' |} = t).
+        { intros. unfold tgt, t. cbn [k_chain]. lia. }
+        destruct (Z.of_nat (length init) <=? Z.of_nat (length fc) - 1) eqn:Ef; rewrite Htg.
+        -- rewrite take_take, take_length. f_equal; [f_equal; lia|lia].
+        -- reflexivity.
+      * unfold pop_core, good. cbn [k_chain k_fchain k_ftip]. unfold zlen.
+        rewrite zn_nat by lia. rewrite take_app_le by lia. rewrite (take_ge init) by lia.
+        destruct (Z.of_nat (length init) <=? Z.of_nat (length fc) - 1) eqn:Ef.
+        -- rewrite take_length. split; lia.
+        -- split; lia.
+      * unfold pop_core. cbn [k_chain]. rewrite zn_nat by lia. rewrite take_length, app_length. cbn [length]. lia.
+      * unfold pop_core. cbn [k_chain]. rewrite zn_nat by lia. rewrite take_length, app_length. cbn [length]. lia.
+Qed.
+
+Lemma rollback_moments_refine P gfh ops h k : in_domain ops ->
+  let s := reach P gfh ops in let s' := step P s (ORollback h) in
+  let tr := roll_back_moments (length (chain s)) h s in
+  length tr = length (op_events s s') /\
+  forall m, tr !! k = Some m ->
+    chain m = chain (moment_state s s' k) /\ fchain m = fchain (moment_state s s' k) /\
+    ftipVar m = ftipVar (moment_state s s' k) /\ events m = events (moment_state s s' k).
+Proof.
+  intros Hd s s' tr.
+  pose proof (reach_cinv P gfh ops Hd) as (G & HLs & _). fold (reach P gfh ops) in G, HLs. fold s in G, HLs.
+  assert (Hn : Z.of_nat (length (chain s)) <= 1000000).
+  { cbn [core_of k_chain] in HLs. unfold in_domain in Hd. lia. }
+  pose proof G as [[G1 G2] G3]. cbn [core_of k_chain k_fchain k_ftip] in G1, G2, G3.
+  set (c := core_of s) in *. set (t := tgt h c).
+  set (n := length (chain s)) in *. set (Hb := hashes (chain s)).
+  assert (HLb : length Hb = n) by apply hashes_length.
+  destruct (tgt_range h c G) as [Ht1 Ht2]. fold t in Ht1, Ht2. change (length (k_chain c)) with n in Ht2.
+  assert (Hcore' : core_of s' = rb_cf t c).
+  { unfold s'. cbn [step]. rewrite core_roll_back_to. apply rbto_cf; [exact G|exact Hn]. }
+  assert (Hevs : op_events s s' = discs_from Hb t).
+  { unfold op_events. change (events s') with (k_events (core_of s')). rewrite Hcore'.
+    cbn [rb_cf k_events]. change (k_events c) with (events s). rewrite drop_app. reflexivity. }
+  assert (Htr : map core_of tr = map (mcore c t) (seq 0 (n - t))).
+  { unfold tr. rewrite core_roll_back_moments. apply rbm_core_cf; [exact G|exact Hn|]. unfold c, n. cbn [core_of k_chain]. lia. }
+  split.
+  { rewrite <- (map_length core_of tr), Htr, map_length, seq_length, Hevs, discs_from_length. lia. }
+  intros m Hm.
+  assert (Hm' : map core_of tr !! k = Some (core_of m)) by (rewrite list_lookup_fmap, Hm; reflexivity).
+  rewrite Htr, list_lookup_fmap in Hm'.
+  destruct (seq 0 (n - t) !! k) as [k'|] eqn:Hk; [|discriminate].
+  apply lookup_seq in Hk. destruct Hk as [-> Hk]. cbn [Nat.add] in Hm'. apply (inj Some) in Hm'.
+  (* the derived moment state *)
+  set (mN := (n - S k)%nat).
+  assert (Hev : op_events s s' !! k = Some (EDisc (default 0 (Hb !! mN)) (Z.of_nat mN) (default 0 (Hb !! pred mN)))).
+  { rewrite Hevs, discs_from_lookup by lia. rewrite HLb. reflexivity. }
+  assert (Hlow : low_water (zlen (chain s)) (take (S k) (op_events s s')) = Z.of_nat mN).
+  { rewrite Hevs, take_discs by lia. unfold discs_from. rewrite low_water_discs.
+    rewrite HLb. replace (n - (n - S k))%nat with (S k) by lia. cbn [Nat.eqb]. unfold zlen. fold n. lia. }
+  assert (Hcm : core_of (moment_state s s' k) = mcore c t k).
+  { unfold moment_state. rewrite Hev, Hlow. rewrite zn_nat by lia.
+    unfold mcore, c, core_of. cbn [with_events set_ftip set_fchain set_chain chain fchain ftipVar events
+                                  k_chain k_fchain k_ftip k_events].
+    fold n mN. unfold zlen. change (hashes (chain s)) with Hb. rewrite <- Hevs.
+    destruct (Z.of_nat mN <=? Z.of_nat (length (fchain s)) - 1) eqn:E.
+    - f_equal. lia.
+    - rewrite (take_ge (fchain s)) by lia. f_equal. lia. }
+  assert (Heq : core_of m = core_of (moment_state s s' k)) by (rewrite Hcm; symmetry; exact Hm').
+  assert (Hp : forall a b : core, a = b ->
+            k_chain a = k_chain b /\ k_fchain a = k_fchain b /\ k_ftip a = k_ftip b /\ k_events a = k_events b).
+  { intros a b ->. tauto. }
+  destruct (Hp _ _ Heq) as (E1 & E2 & E3 & E4). cbn [core_of k_chain k_fchain k_ftip k_events] in E1, E2, E3, E4.
+  rewrite E1, E2, E3, E4. tauto.
+Qed.
+
+(* ================= a failing header-store read during a backlog request ================= *)
+Definition item_of (c : list header) (i : Z) : option (Z * Z) :=
+  match at_h c i with Some x => Some (hid x, i) | None => None end.
+
+Lemma backlog_loop_spec c fault : forall hs L i acc,
+  map (item_of c) hs = map Some L ->
+  backlog_loop c fault i hs acc =
+  if (i <=? fault) && (fault <? i + zlen hs) then None else Some (reverse acc ++ L).
+Proof.
+  induction hs as [|x r IH]; intros L i acc HL.
+  - destruct L; [|discriminate]. cbn [backlog_loop]. unfold zlen. cbn [length].
+    replace ((i <=? fault) && (fault <? i + Z.of_nat 0)) with false by lia.
+    rewrite app_nil_r. reflexivity.
+  - destruct L as [|y L]; [discriminate|]. cbn [map] in HL. injection HL as Hy HL.
+    cbn [backlog_loop]. unfold zlen. cbn [length].
+    destruct (i =? fault) eqn:E.
+    { replace ((i <=? fault) && (fault <? i + Z.of_nat (S (length r)))) with true by lia. reflexivity. }
+    unfold item_of in Hy. destruct (at_h c x) as [hd|]; [|discriminate]. injection Hy as <-.
+    rewrite (IH L (i + 1) ((hid hd, x) :: acc) HL). unfold zlen.
+    rewrite reverse_cons, <- app_assoc. cbn [app].
+    destruct ((i + 1 <=? fault) && (fault <? i + 1 + Z.of_nat (length r))) eqn:E2.
+    + replace ((i <=? fault) && (fault <? i + Z.of_nat (S (length r)))) with true by lia. reflexivity.
+    + replace ((i <=? fault) && (fault <? i + Z.of_nat (S (length r)))) with false by lia. reflexivity.
+Qed.
+
+(* with a fault at the n-th read: an error if the loop gets that far, the
+   fault-free answer otherwise *)
+Lemma notifs_since_fault_spec s n h : good (core_of s) -> Z.of_nat (length (chain s)) <= 1000000 -> 0 <= h ->
+  notifs_since_fault n h s =
+  if (0 <? h) && (h <? ftipVar s) && (1 <=? n) && (n <=? ftipVar s - h) then None
+  else notifs_since h s.
+Proof.
+  intros [[G1 G2] G3] HL Hh. cbn [core_of k_chain k_fchain k_ftip] in *.
+  unfold notifs_since_fault, notifs_since. rewrite G3.
+  set (fl := length (fchain s)) in *.
+  destruct ((h =? 0) || (Z.of_nat fl - 1 =? h)) eqn:E1.
+  { replace ((0 <? h) && (h <? Z.of_nat fl - 1) && (1 <=? n) && (n <=? Z.of_nat fl - 1 - h)) with false by lia.
+    reflexivity. }
+  destruct (h >? Z.of_nat fl - 1) eqn:E2.
+  { replace ((0 <? h) && (h <? Z.of_nat fl - 1) && (1 <=? n) && (n <=? Z.of_nat fl - 1 - h)) with false by lia.
+    reflexivity. }
+  cbv zeta.
+  assert (Hitems :
+    map (item_of (chain s))
+        (map (fun i => h + 1 + Z.of_nat i) (seq 0 (zn (Z.of_nat fl - 1 - h)))) =
+    map Some (expected_backlog (hashes (chain s)) fl h)).
+  { unfold expected_backlog. rewrite !zn_eq by lia.
+    replace (fl - (Z.to_nat h + 1))%nat with (Z.to_nat (Z.of_nat fl - 1 - h)) by lia.
+    rewrite (seq_as_map (Z.to_nat h + 1)).
+    rewrite !map_map. apply map_ext_in. intros j Hj.
+    apply elem_of_list_In, elem_of_seq in Hj. unfold item_of.
+    replace (h + 1 + Z.of_nat j) with (Z.of_nat (Z.to_nat h + 1 + j)) by lia.
+    rewrite at_h_nat by lia. rewrite hashes_lookup.
+    destruct (chain s !! (Z.to_nat h + 1 + j)%nat) as [x|] eqn:Hx; [reflexivity|].
+    apply lookup_ge_None in Hx. lia. }
+  rewrite (backlog_loop_spec _ _ _ _ 1 [] Hitems).
+  change (map (fun i : Z => match at_h (chain s) i with Some x => Some (hid x, i) | None => None end))
+    with (map (item_of (chain s))).
+  rewrite Hitems, forallb_Some, omap_id_Some.
+  unfold zlen. rewrite map_length, seq_length, zn_eq by lia. cbn [reverse app].
+  destruct ((1 <=? n) && (n <? 1 + Z.of_nat (Z.to_nat (Z.of_nat fl - 1 - h)))) eqn:E3.
+  - replace ((0 <? h) && (h <? Z.of_nat fl - 1) && (1 <=? n) && (n <=? Z.of_nat fl - 1 - h)) with true by lia.
+    reflexivity.
+  - replace ((0 <? h) && (h <? Z.of_nat fl - 1) && (1 <=? n) && (n <=? Z.of_nat fl - 1 - h)) with false by lia.
+    reflexivity.
+Qed.
+
+Lemma backlog_fault_is_error P gfh ops o k n h : in_domain (ops ++ [o]) ->
+  let s := reach P gfh ops in let s' := step P s o in
+  let evs := op_events s s' in
+  (k <= length evs)%nat -> 0 <= h ->
+  let cm := committed_at (committed_of s) (committed_of s') evs k in
+  notifs_fault_at_moment s s' k n h =
+    (if (0 <? h) && (h <? zlen cm - 1) && (1 <=? n) && (n <=? zlen cm - 1 - h) then None
+     else notifs_at_moment s s' k h) /\
+  (notifs_fault_at_moment s s' k n h = None \/
+   notifs_fault_at_moment s s' k n h =
+     Some (if h =? 0 then [] else moment_backlog cm h, zlen cm - 1)).
+Proof.
+  intros Hd s s' evs Hk Hh cm.
+  destruct (moment_main P gfh ops o k Hd Hk) as (_ & G & HL & _).
+  destruct (backlog_any_moment P gfh ops o k h Hd Hk) as (_ & Hft & _ & Hns & _).
+  fold s s' evs cm in G, HL, Hft, Hns. specialize (Hns Hh).
+  assert (E : notifs_fault_at_moment s s' k n h =
+              if (0 <? h) && (h <? zlen cm - 1) && (1 <=? n) && (n <=? zlen cm - 1 - h) then None
+              else notifs_at_moment s s' k h).
+  { unfold notifs_fault_at_moment, notifs_at_moment.
+    rewrite (notifs_since_fault_spec _ n h G HL Hh), Hft. reflexivity. }
+  split; [exact E|]. rewrite E.
+  destruct ((0 <? h) && (h <? zlen cm - 1) && (1 <=? n) && (n <=? zlen cm - 1 - h)); [left; reflexivity|].
+  rewrite Hns. destruct (h =? 0); [right; reflexivity|].
+  destruct (h <=? zlen cm - 1); [right; reflexivity|left; reflexivity].
 Qed.
